@@ -202,12 +202,13 @@ func (dts *DataTypeService) findMetadata(key []byte, dt dataType) (*metadata, er
 	if err == bitcask.ErrKeyNotFound {
 		exist = false
 	} else {
-		// key 存在, 进行解码
-		meta = decodeMetadata(metaBuf)
 		// 判断数据类型是否正确
-		if meta.dataType != dt {
+		// 必须先于解码: 类型不符时其余字节并非元数据编码 (如 String 的原始 value), 解码可能越界
+		if len(metaBuf) == 0 || metaBuf[0] != dt {
 			return nil, ErrWrongTypeOperation
 		}
+		// key 存在, 进行解码
+		meta = decodeMetadata(metaBuf)
 		// 判断是否过期
 		if meta.expire != 0 && meta.expire <= time.Now().UnixNano() {
 			exist = false // 过期仍视为不存在
